@@ -1052,6 +1052,36 @@ package objects
 //@   ensures v == prioKey(policy, offset, priority)
 //@ spec qprio(q *Queue) int = prioKey(q.priorityPolicy, q.priorityOffset, q.currentPriority)
 
+// the key a parent sorts its children by is kept current: a queue's current priority is the maximum over what its
+// applications / children expose, and every change is handed on to the parent (all the way up) with the value this
+// queue exposes under its own policy and offset
+//@ func (sq *Queue) recalculatePriority() (v int32)
+//@   props C19
+//@   mode nopanic=off
+//@   assigns sq.currentPriority
+//@   ensures[exposed] v == qprio(sq)
+//@   ensures[maxleaf] sq.isLeaf ==> (forall k string :: (k in sq.appPriorities) ==> sq.appPriorities[k] <= sq.currentPriority)
+//@   ensures[maxparent] !sq.isLeaf ==> (forall k string :: (k in sq.childPriorities) ==> sq.childPriorities[k] <= sq.currentPriority)
+//@   ensures[attained] sq.currentPriority == -2147483648 || (exists k string :: sq.isLeaf ? ((k in sq.appPriorities) && sq.appPriorities[k] == sq.currentPriority) : ((k in sq.childPriorities) && sq.childPriorities[k] == sq.currentPriority))
+//@   loop 1: invariant sq != nil && items == (sq.isLeaf ? sq.appPriorities : sq.childPriorities)
+//@   loop 1: invariant forall k string :: seen(k) ==> items[k] <= curr
+//@   loop 1: invariant curr == -2147483648 || (exists k string :: seen(k) && (k in items) && items[k] == curr)
+
+//@ func (sq *Queue) updateQueuePriorityInternal(queueName string, priority int32) (v int32)
+//@   props C19
+//@   mode nopanic=off
+//@   assigns sq.currentPriority, sq.childPriorities[*]
+//@   ensures[exposed] old(queueName in sq.children) ==> v == qprio(sq)
+//@   ensures[recorded] old(queueName in sq.children) ==> sq.childPriorities[queueName] == priority
+//@   ensures[unknown] !old(queueName in sq.children) ==> sq.currentPriority == old(sq.currentPriority) && v == sq.currentPriority
+
+//@ func (sq *Queue) UpdateQueuePriority(queueName string, priority int32)
+//@   props C19
+//@   mode nopanic=off
+//@   assigns all Queue.currentPriority, all Queue.childPriorities[*]
+//@   at[up] call objects.Queue.UpdateQueuePriority#1: assert arg0 == sq.parent && arg1 == sq.Name && (old(queueName in sq.children) ==> arg2 == qprio(sq))
+//@   ensures[propagated] sq != nil && !sq.isLeaf ==> ncalls(objects.Queue.UpdateQueuePriority) == 1
+
 //@ func sortQueuesByPriority$1(i, j int) (r bool)
 //@   props C19
 //@   mode nopanic=off
